@@ -174,10 +174,21 @@ fn cli(binary: &str, cases_path: &str, out_path: &str) {
             let _ = child.kill();
         }
         let status = child.wait().expect("wait pushr");
+        // output that was cut (size limit, or the time limit killed the process) may end in the middle of a line or of a
+        // block: everything after the last complete block separator is dropped
+        let cut_somewhere = full || !status.success();
+        let usable: &str = if cut_somewhere {
+            match stdout.rfind("\n> EXEC  :") {
+                Some(p) => &stdout[..p + 1],
+                None => "",
+            }
+        } else {
+            &stdout
+        };
         // the front end prints EXEC / CODE / INT before every step
         let mut cli_steps: Vec<Value> = vec![];
         let mut cur = json!({});
-        for line in stdout.lines() {
+        for line in usable.lines() {
             if let Some(r) = line.strip_prefix("> EXEC  : ") {
                 cur = json!({"exec": r});
             } else if line == "> EXEC  :" {
